@@ -44,6 +44,7 @@ func run(c *vf.Ctx) {
 	nameObligations(c, pool)
 	messageLattices(c, pool)
 	pointerPlacement(c)
+	rejectionLattice(c)
 	histories(c)
 }
 
